@@ -162,7 +162,7 @@ class Check:
         strategy: Callable[[str], Any],
         run: Callable[[Any, "Ctx"], None],
         examples: dict[str, int],
-        shrink: bool = True,
+        shrink: Any = True,
         budget_s: dict[str, float] | None = None,
     ) -> None:
         self.name = name
@@ -337,7 +337,7 @@ def run_shard(prop: str, tier: str, seed: int, shard: int, nshards: int, out: st
             body = _make_body(c, ctx, first, prop, seed, shard)
 
             phases = [Phase.explicit, Phase.generate, Phase.target]
-            if c.shrink:
+            if c.shrink is True:
                 phases.append(Phase.shrink)
             test = given(c.strategy(tier))(body)
             test = settings(
@@ -354,6 +354,8 @@ def run_shard(prop: str, tier: str, seed: int, shard: int, nshards: int, out: st
             try:
                 test()
             except Violation as v:
+                if isinstance(c.shrink, str) and c.shrink.startswith("ddmin:"):
+                    v = _ddmin(c, ctx, v, c.shrink[6:], 90.0 if tier == "quick" else 240.0)
                 path = _write_replay(prop, c.name, v)
                 un = os.path.join(
                     VERIF, "replays", f"{prop}-{c.name}-unshrunk-s{seed}-{shard}.json"
@@ -411,6 +413,52 @@ def _make_body(c: Check, ctx: Ctx, first: list, prop: str, seed: int, shard: int
             raise
 
     return body
+
+
+def _ddmin(c: Check, ctx: Ctx, v: Violation, key: str, budget: float) -> Violation:
+    """Delta debugging over the list case[key] (used where Hypothesis' shrinker is too slow):
+    keeps a sub-list that still raises a Violation with the same signature."""
+    import copy as _copy
+
+    t_end = time.monotonic() + budget
+    case = _copy.deepcopy(v.case)
+    items = list(case[key])
+    best = v
+
+    def fails(cand: list) -> Violation | None:
+        cc = dict(case)
+        cc[key] = cand
+        try:
+            c.run(_copy.deepcopy(cc), ctx)
+        except Violation as w:
+            if w.sig == v.sig:
+                if w.case is None:
+                    w.case = cc
+                return w
+        except Exception:
+            return None
+        return None
+
+    n = 2
+    while len(items) >= 2 and time.monotonic() < t_end:
+        chunk = max(1, -(-len(items) // n))
+        reduced = False
+        for i in range(0, len(items), chunk):
+            cand = items[:i] + items[i + chunk :]
+            w = fails(cand)
+            if w is not None:
+                items, best, reduced = cand, w, True
+                n = max(n - 1, 2)
+                break
+            if time.monotonic() > t_end:
+                break
+        if not reduced:
+            if n >= len(items):
+                break
+            n = min(n * 2, len(items))
+    best.case = dict(case)
+    best.case[key] = items
+    return best
 
 
 def _subseed(name: str) -> int:
